@@ -330,11 +330,11 @@ def gen_unitary(rng, n, cat):
             U = gen_unitary(rng, n, "permphase") @ U
         return U
     if cat == "tiny":
-        # rotations by tiny angles: entries of size 1e-13 ... 1e-30 (well away from the 1e-20 threshold)
+        # rotations by tiny angles: entries of size 1e-9 ... 1e-30 (well away from the 1e-20 threshold)
         U = gen_unitary(rng, n, rng.choice(["identity", "perm", "block", "haar"]))
         for _ in range(rng.randint(1, 2)):
             a, b = rng.sample(range(n), 2)
-            t = rng.choice([1e-13, 1e-15, 1e-17, 1e-25, 1e-30])
+            t = rng.choice([1e-9, 1e-11, 1e-13, 1e-15, 1e-17, 1e-25, 1e-30])
             U = U @ _givens(n, a, b, math.cos(t), math.sin(t), _phase(rng))
         return U
     if cat == "dft":
@@ -422,7 +422,7 @@ class C14:
     ID = "C14"
     RULE = ("unitaries of 13 families (Haar, identity, diagonal, permutation with/without phases, products of "
             "Givens rotations incl. exact 0/1 and cos(pi/2)=6e-17 amplitudes, block-diagonal, exp(i eps H) with "
-            "eps 1e-5..1e-14, rotations by 1e-13..1e-30, DFT, real orthogonal, two-level, unit rows) of size 1-6 "
+            "eps 1e-5..1e-14, rotations by 1e-9..1e-30, DFT, real orthogonal, two-level, unit rows) of size 1-6 "
             "(thorough: 1-8) for reck_decomposition and Reck.map (default and random error models from "
             "Constant/TopHat/Gaussian, seeds, heralds, prior call histories, lossy/non-unitary and malformed inputs); "
             "distribution and ErrorModel draw sequences against the replicated numpy streams; a case is non-trivial "
@@ -548,10 +548,10 @@ class C14:
         if t == "tophat":
             return {"t": "tophat", "lo": lo, "hi": hi}
         dev = rng.choice([0.0, w / 2, w, 2 * w]) if w > 0 else rng.choice([0.0, 0.01])
+        if w == 0 and dev > 0:      # a zero-width window is never hit (Gaussian.value would loop for ever): widen
+            lo, hi = (max(0.0, c - 0.02), min(1.0, c + 0.02)) if role in ("bs", "loss") else (c - 0.02, c + 0.02)
         if rng.random() < 0.2 and role in ("phase", "wide"):
             return {"t": "gauss", "c": c, "d": dev, "lo": rng.choice([None, lo]), "hi": rng.choice([None, hi])}
-        if w == 0 and dev > 0:      # a zero-width window is never hit: widen
-            lo, hi = (max(0.0, c - 0.02), min(1.0, c + 0.02)) if role in ("bs", "loss") else (c - 0.02, c + 0.02)
         # resampling must terminate quickly: keep the centre inside the window
         return {"t": "gauss", "c": min(max(c, lo), hi), "d": dev, "lo": lo, "hi": hi}
 
